@@ -177,6 +177,13 @@ def _e_body(a, b, c, k):
     v = TC.valid(include=inc, exclude=exc)
     expv = model_valid([CATS[a].name], None if b < 0 else [CATS[b].name])
     check(set(_names(v)) == expv, f'valid(include={inc!r}, exclude={exc!r}) = {_names(v)}, expected {sorted(expv)}')
+    if b >= 0:
+        # the mirrored selection right afterwards (results must not depend on earlier calls)
+        v2 = TC.valid(include=exc, exclude=inc)
+        expv2 = model_valid([CATS[b].name], [CATS[a].name])
+        check(set(_names(v2)) == expv2, f'valid(include={exc!r}, exclude={inc!r}) called after the mirrored selection = {_names(v2)}, expected {sorted(expv2)}')
+        g2 = TC.match(cc, include=exc, exclude=inc)
+        check(bool(g2) == model_match(cc.name, [CATS[b].name], [CATS[a].name]), f'match({cc.name}) after the mirrored selection = {g2}')
     return True
 
 
@@ -281,7 +288,11 @@ def run_c(tier):
              ('both None', ALL, EMPTY, lambda m: (None, None))]
     valid_terms = {}
     for label, i_t, x_t, dec in cases:
-        valid = _translate_valid(i_t, x_t)
+        try:
+            valid = _translate_valid(i_t, x_t)
+        except pz.Unsupported as e:
+            q.unsupported(f'valid: {e}')
+            continue
         valid_terms[label] = valid
         spec = _doc_closure_term(i_t) & ~_doc_closure_term(x_t)
         r, m = q.valid(f'valid[{label}] == closure(include) - closure(exclude), all 2^{N} x 2^{N} sets',
@@ -291,7 +302,11 @@ def run_c(tier):
             cex.append({'args': {'inc': a, 'exc': b}, 'message': f'valid[{label}] differs from the closure algebra'})
     # match(c) <=> valid ∩ closure(c) != {} ; one query per category, sets symbolic
     for ci, c in enumerate(CATS):
-        mt = _translate_match(c, inc, exc)
+        try:
+            mt = _translate_match(c, inc, exc)
+        except pz.Unsupported as e:
+            q.unsupported(f'_match: {e}')
+            break
         spec_valid = _doc_closure_term(inc) & ~_doc_closure_term(exc)
         spec = (spec_valid & z3.BitVecVal(_bits(DOC.closure(c.name)), N)) != z3.BitVecVal(0, N)
         r, m = q.valid(f'match({c.name}) <=> valid & closure({c.name}) != {{}}', [], mt == spec, model_vars=[inc_v, exc_v])
@@ -304,7 +319,7 @@ def run_c(tier):
     for _ in range(200):
         pts.append((rnd.sample(NAMES, rnd.randint(0, 6)), rnd.sample(NAMES, rnd.randint(0, 4))))
     bad = 0
-    for a, b in pts:
+    for a, b in (pts if 'sets' in valid_terms else []):
         t = z3.simplify(z3.substitute(valid_terms['sets'].t, (inc_v, z3.BitVecVal(_bits(a), N)), (exc_v, z3.BitVecVal(_bits(b), N))))
         real = M.valid(include={TC[n] for n in a}, exclude={TC[n] for n in b})
         if t.as_long() != _bits([c.name for c in real]):
